@@ -31,6 +31,7 @@ def import_forms(P):
     ]
 
 
+SAVE_KW_TRAPS = ['context', 'namespace', 'args', 'kwargs', 'self', 'save', 'key', 'arg', 'd', 'err', 'r']
 ATTR_POOL = ['K', 'S', 'gcd', 'p', 'q', 'sub', 'mod', 'other', 'CONST', 'TOP', 'NAME', 'parse', 'dom',
              'minidom', 'path', 'sep', 'quote']
 
@@ -431,6 +432,11 @@ def seeds():
         ['save', [], [['d', ['attr', N('C'), 'd']], ['v', ['attr', N('C'), 'v']]]]])
     ex([['def', 'f', ['x'], ['walrus', 'a', N('x')]], ['assign', 'r', ['call', N('f'), [['int', 5]]]], ['save', ['r', 'a'], []]])
     ex([['save', ['a'], [['a', ['int', 5]], ['zz', ['int', 1]]]]])
+    # whatever a keyword of save(...) is called, it arrives in context
+    ex([['save', [], [['namespace', ['str', 'prod-ns']]]]])
+    ex([['assign', 'replicas', ['int', 3]], ['save', ['replicas'], [['context', ['int', 7]], ['key', ['str', 'v']]]]])
+    ex([['assign', 'x', ['int', 1]], ['save', ['x', 'a'], [['args', ['int', 1]], ['kwargs', ['int', 2]], ['self', ['none']],
+                                                          ['save', ['int', 4]], ['d', N('lst')], ['arg', ['int', 5]]]]])
     # dotted imports over a throw-away package: the path resolves through the top-level name
     P = 'c14pkg_seed01'
 
@@ -571,8 +577,11 @@ def gen_exec_case(rng):
             if rng.random() < 0.04:
                 names.append('nope')
             kws = []
-            for k in rng.sample(['r', 'out', 'k', 'a', 'lst'], rng.choice([0, 0, 1, 2])):
-                kws.append([k, g.expr('any', max(d - 1, 0), sc)])
+            # keyword names include ones that could collide with parameters of an implementation of save
+            pool = ['r', 'out', 'k', 'a', 'lst'] if rng.random() < 0.55 else SAVE_KW_TRAPS
+            for k in rng.sample(pool, rng.choice([0, 1, 1, 2, 3] if pool is SAVE_KW_TRAPS else [0, 0, 1, 2])):
+                kws.append([k, g.expr('any', max(d - 1, 0), sc) if rng.random() < 0.5
+                            else rng.choice([['int', 3], ['str', 'prod-ns'], ['none'], ['bool', True], ['name', 'lst']])])
             names = [x for x in names if x != 'save']
             block.append(['save', names, kws])
         elif r < 0.95:
